@@ -14,6 +14,8 @@ def main(argv=None):
     args = ap.parse_args(argv)
     import warnings
     warnings.filterwarnings("ignore")
+    import faulthandler, signal
+    faulthandler.register(signal.SIGUSR1, all_threads=False)     # kill -USR1 <pid> dumps the python stack
     from pbt import core
     import desolver  # imported once, before the shards fork
     pid = args.pid.upper()
